@@ -113,6 +113,7 @@ func runC14(c *Ctx, r *Report) {
 	c14BarClamp(c, r)
 	c14DisplayedFromAggregator(c, r)
 	c14ScaleAgreement(c, r)
+	c14StrLenRunes(c, r, "C14-e/strlen-visible")
 }
 
 // ---------------------------------------------------------------- palettes
